@@ -180,6 +180,15 @@ def run(program, rep, tier):
     class _NoEval(Exception):
         pass
 
+    class _Nm:
+        """An abstract resource name: truth value = str.isidentifier()."""
+        def __init__(self, ident, mangled):
+            self.ident, self.mangled = ident, mangled
+
+        def __bool__(self):
+            return self.ident
+    _ID, _OT, _MG = _Nm(True, False), _Nm(False, False), _Nm(True, True)
+
     def _ev(n, sc, env):
         """Evaluate the decision for a scenario: collections of names are
         lists of "is an identifier" flags."""
@@ -206,14 +215,17 @@ def run(program, rep, tier):
                 return _ev(v0, sc, env)
             raise _NoEval(n.id)
         t = norm(n)
+        mg_h = sc[5] if len(sc) > 5 else 0
+        mg_m = sc[6] if len(sc) > 6 else 0
         if t in ('self.handles', 'self.handles.keys()'):
-            return [True] * sc[0] + [False] * sc[1]
+            return [_ID] * sc[0] + [_OT] * sc[1] + [_MG] * mg_h
         if t in ('self.maps', 'self.maps.keys()'):
-            return [True] * sc[2] + [False] * sc[3]
+            return [_ID] * sc[2] + [_OT] * sc[3] + [_MG] * mg_m
         if t == 'self.handles.maps':
             # the layers: every name in the first one, sc[4] identifier names
             # shadowed in a second one
-            return [[True] * sc[0] + [False] * sc[1], [True] * sc[4]]
+            return [[_ID] * sc[0] + [_OT] * sc[1] + [_MG] * mg_h,
+                    [_ID] * sc[4]]
         if isinstance(n, ast.Call):
             d = dotted(n.func) or ''
             if d.split('.')[-1] == 'chain' and not n.keywords:
@@ -247,6 +259,14 @@ def run(program, rep, tier):
             if isinstance(n.func, ast.Attribute) and n.func.attr == \
                     'isidentifier' and not n.args:
                 return bool(_ev(n.func.value, sc, env))
+            if isinstance(n.func, ast.Attribute) and n.func.attr in (
+                    'startswith', 'endswith') and len(n.args) == 1 \
+                    and isinstance(n.args[0], ast.Constant) \
+                    and n.args[0].value == '__':
+                v_ = _ev(n.func.value, sc, env)
+                if isinstance(v_, _Nm):
+                    return v_.mangled if n.func.attr == 'startswith' \
+                        else False
             raise _NoEval(t)
         if isinstance(n, (ast.GeneratorExp, ast.ListComp, ast.SetComp)) \
                 and len(n.generators) == 1 and isinstance(
@@ -292,21 +312,27 @@ def run(program, rep, tier):
                                 else [dec.body]) for x in ast.walk(b))
         try:
             import itertools as _it
-            for sc in _it.product((0, 1, 2), repeat=5):
+            for sc in _it.product((0, 1, 2), (0, 1, 2), (0, 1, 2), (0, 1, 2),
+                                  (0, 1, 2), (0, 1), (0, 1)):
                 if sc[4] > sc[0]:
                     continue
                 got = bool(_ev(dec.test, sc, {}))
                 has_dict = got if in_body else not got
-                need = sc[1] + sc[3] > 0
+                # a name that is no identifier cannot be a slot; neither can
+                # `__x` (two leading underscores, not two trailing ones): in
+                # the class body its slot is mangled to _StaticSubmap__x
+                need = sc[1] + sc[3] + sc[5] + sc[6] > 0
                 if need and not has_dict:
                     ok_d = False
-                    why = (f'with {sc[0]}+{sc[1]} handle names' + (
+                    why = (f'with {sc[0]}+{sc[1]}+{sc[5]} handle names' + (
                                f' ({sc[4]} of them shadowed in a second '
                                'layer)' if sc[4] else '') + ' and '
-                           f'{sc[2]}+{sc[3]} sub-map names (identifiers + '
-                           'others) the snapshot class gets no __dict__ '
-                           'although a name is not an identifier: '
-                           'get_static_map() raises AttributeError')
+                           f'{sc[2]}+{sc[3]}+{sc[6]} sub-map names (plain '
+                           'identifiers + non-identifiers + names like `__x`, '
+                           'which are mangled inside a class body) the '
+                           'snapshot class gets no __dict__ although a name '
+                           'cannot be a slot: get_static_map() raises '
+                           'AttributeError')
                     break
             else:
                 if ok_d:
